@@ -95,7 +95,10 @@ CHECKS = {
              "deadlock-free, terminates under weak fairness, drops nothing submitted and leaves no orphan pack. The same backup and "
              "backup+forget+repacking prune are repeated on the real code under seeded back-end delay patterns x pack sizes from one "
              "blob per pack upward x thread-pool sizes 1/2/8 under a watchdog; SchedTrace.tla checks that tree id and referenced "
-             "blob set are identical in all runs, that no run hangs, no orphan pack is left and the result is readable with a clean check.",
+             "blob set are identical in all runs, that no run hangs, no orphan pack is left and the result is readable with a clean check. "
+             "Streamer.tla models TreeStreamerOnce (caller, loader threads, unbounded id queue, bounded tree queue, per-snapshot pending "
+             "counters): over all forests TLC checks every tree delivered exactly once, counters exact, no deadlock and termination under "
+             "weak fairness, and shows that a bounded id queue deadlocks on a wide directory (the wide-directory scenario runs it for real).",
         note="Perturbation is external (latency at back-end calls, pack boundaries, pool size); no scheduling hook inside the pipeline "
              "stages. Copy is exercised under C12. A hang is detected by a 60 s watchdog.",
         technique="TLC liveness/safety model of the packer pipeline + TLC validation of repeated real runs under seeded perturbations",
